@@ -23,6 +23,8 @@ pub enum Op {
     ClearContents { sheet: u32, row: i32, col: i32, w: i32, h: i32 },
     Undo,
     Redo,
+    Language(String),
+    Locale(String),
 }
 
 pub const VALUES: [&str; 22] = [
@@ -108,7 +110,30 @@ pub fn apply(m: &mut UserModel, op: &Op) -> Result<(), String> {
         Op::ClearContents { sheet, row, col, w, h } => m.range_clear_contents(&Area { sheet: *sheet, row: *row, column: *col, width: *w, height: *h }),
         Op::Undo => m.undo(),
         Op::Redo => m.redo(),
+        Op::Language(l) => m.set_language(l),
+        Op::Locale(l) => m.set_locale(l),
     }
+}
+
+pub const LANGUAGES: [&str; 5] = ["en", "es", "fr", "de", "it"];
+pub const LOCALES: [&str; 6] = ["en", "en-GB", "es", "fr", "de", "it"];
+
+/// like `gen_history`, with language / locale switches interleaved (about one op in six)
+pub fn gen_history_lang(seed: u64, nops: usize) -> Vec<Op> {
+    let base = gen_history(seed, nops);
+    let mut rng = Rng::new(seed ^ 0x1A46_0C10);
+    let mut out = vec![];
+    for op in base {
+        if rng.chance(1, 6) {
+            if rng.chance(1, 2) {
+                out.push(Op::Language(rng.pick(&LANGUAGES).to_string()));
+            } else {
+                out.push(Op::Locale(rng.pick(&LOCALES).to_string()));
+            }
+        }
+        out.push(op);
+    }
+    out
 }
 
 pub fn new_user_model() -> UserModel<'static> {
